@@ -45,7 +45,7 @@ end X
 abbrev GoErr := Option String
 
 /-- `len(b)` -/
-def len (b : Bytes) : Int := (b.length : Int)
+abbrev len (b : Bytes) : Int := (b.length : Int)
 
 /-- `b[i]` -/
 def idx (b : Bytes) (i : Int) : X Byte :=
